@@ -155,6 +155,7 @@ pub fn configs(tier: Tier) -> Vec<InCfg> {
                 app_sends,
                 skip_connect: state == 3,
                 known: vec![],
+                bp: 0,
             });
         }
     }
